@@ -41,6 +41,7 @@ KIND2ERR = {
     "OutOfGas": "OutOfGasError",
     "OutOfBounds": "OutOfBoundsRead",
     "StaticWrite": "WriteInStaticContext",
+    "Fail": "FailCheatcode",
 }
 
 DEFAULT_ENV = {
@@ -91,7 +92,8 @@ def mk_tx(to: int, caller: int, origin: int, value: int, data: bytes, *, static=
     }
 
 
-def mk_case(cid: int, accounts: dict, txs: list[dict], *, storage=None, balances=None, env=None, create_base=CREATE_BASE) -> dict:
+def mk_case(cid: int, accounts: dict, txs: list[dict], *, storage=None, balances=None, env=None, create_base=CREATE_BASE,
+            oracle=None, assert_mode: str = "stop") -> dict:
     """A case for EvmRun.tla: a world and a sequence of messages."""
     e = dict(DEFAULT_ENV)
     if env:
@@ -102,12 +104,22 @@ def mk_case(cid: int, accounts: dict, txs: list[dict], *, storage=None, balances
         "storage": [{"a": word(a), "k": word(k), "v": word(v)} for (a, k), v in sorted((storage or {}).items())],
         "balance": [{"a": word(a), "v": word(v)} for a, v in sorted((balances or {}).items())],
         "txs": txs,
-        "env": {**{k: word(v) for k, v in e.items()}, "createBase": word(create_base),
-                "opaque": [word(HEVM), word(SVM), word(CONSOLE)]},
+        "env": env_json(e, create_base, oracle, assert_mode),
     }
 
 
-def to_case(cid: int, prog: Prog, inp: dict[str, int], *, transfer: bool = False, env: dict | None = None) -> dict:
+def env_json(e: dict, create_base: int, oracle=None, assert_mode: str = "stop") -> dict:
+    """oracle: values returned by successive svm.create*/vm.random* calls (ints = 32-byte words, or bytes)."""
+    orc = []
+    for o in oracle or []:
+        orc.append(list(o) if isinstance(o, bytes | bytearray) else word(o))
+    return {**{k: word(v) for k, v in e.items()}, "createBase": word(create_base),
+            "opaque": [word(CONSOLE)], "cheatAddrs": [word(HEVM), word(SVM)],
+            "oracle": orc, "assertMode": assert_mode}
+
+
+def to_case(cid: int, prog: Prog, inp: dict[str, int], *, transfer: bool = False, env: dict | None = None, oracle=None,
+            assert_mode: str = "stop") -> dict:
     c = concretize(prog, inp)
     e = dict(DEFAULT_ENV)
     if env:
@@ -122,11 +134,7 @@ def to_case(cid: int, prog: Prog, inp: dict[str, int], *, transfer: bool = False
             mk_tx(prog.target, c["caller"], c["origin"], c["value"], c["data"], static=prog.static, create=prog.create,
                   transfer=transfer)
         ],
-        "env": {
-            **{k: word(v) for k, v in e.items()},
-            "createBase": word(prog.meta.get("create_base", CREATE_BASE)),
-            "opaque": [word(HEVM), word(SVM), word(CONSOLE)],
-        },
+        "env": env_json(e, prog.meta.get("create_base", CREATE_BASE), oracle, assert_mode),
     }
 
 
@@ -136,7 +144,12 @@ def run_spec(cases: list[dict], work, *, max_steps: int = 20000, workers="auto",
         raise MachineryError("no cases")
     f = work / f"cases-{int(time.time()*1000)%100000000}.json"
     f.write_text(json.dumps(cases))
-    r = run_tlc("EvmRun", "EvmRun.cfg", work=work, env={"CASES": str(f)}, workers=workers, timeout=timeout,
+    cf = work / "cheats.json"
+    if not cf.exists():
+        from .cheats import DESCRIPTORS
+
+        cf.write_text(json.dumps([{k: d[k] for k in ("sel", "kind", "op", "typ", "arr", "n")} for d in DESCRIPTORS]))
+    r = run_tlc("EvmRun", "EvmRun.cfg", work=work, env={"CASES": str(f), "CHEATS": str(cf)}, workers=workers, timeout=timeout,
                 expect_violation=True)
     if r.violated:
         # an invariant of the specification failed on a behaviour: a defect of the spec, not of halmos
